@@ -30,9 +30,10 @@ type FaultCfg struct {
 	Heal     int // heal a random cut link
 	Jump     int // advance virtual time by 10..120 s
 	Release  int // release one goroutine parked at a hook
+	Stream   int // move a chunk of bytes (or EOF) on a simulated libp2p stream
 }
 
-func BenignCfg() FaultCfg { return FaultCfg{Deliver: 6, Serve: 6, Refresh: 4, Tick: 2} }
+func BenignCfg() FaultCfg { return FaultCfg{Deliver: 6, Serve: 6, Refresh: 4, Tick: 2, Stream: 6} }
 
 type Extra struct {
 	Name   string
@@ -133,6 +134,12 @@ func (k *K) Step() string {
 		}
 	}
 	nparks := len(w.parks)
+	var streams []*SimStream
+	for _, st := range w.streams {
+		if st.pendingWork() {
+			streams = append(streams, st)
+		}
+	}
 	w.mu.Unlock()
 
 	ws := []int{
@@ -148,6 +155,7 @@ func (k *K) Step() string {
 		cond(len(cuts) > 0, k.F.Heal),
 		k.F.Jump,
 		cond(nparks > 0, k.F.Release),
+		cond(len(streams) > 0, k.F.Stream),
 	}
 	base := len(ws)
 	for _, e := range k.Extras {
@@ -238,6 +246,10 @@ func (k *K) Step() string {
 	case 11:
 		k.ReleaseOne(k.C.Intn(nparks))
 		return "release"
+	case 12:
+		st := streams[k.C.Intn(len(streams))]
+		k.StreamChunk(st, []int{1 << 30, 1 << 30, 4096, 100, 7}[k.C.Intn(5)])
+		return "stream"
 	}
 	return ""
 }
@@ -314,7 +326,10 @@ func (k *K) PendingDesc() []string {
 // reached. FIFO vs random order of benign actions is still chosen by the run.
 func (k *K) Settle(maxVirtual time.Duration, maxSteps int, idle func() bool) bool {
 	saved := k.F
-	k.F = FaultCfg{Deliver: saved.Deliver, Serve: saved.Serve, Refresh: saved.Refresh, Reorder: saved.Reorder, ServeAny: saved.ServeAny, Release: saved.Release}
+	k.F = FaultCfg{Deliver: saved.Deliver, Serve: saved.Serve, Refresh: saved.Refresh, Reorder: saved.Reorder, ServeAny: saved.ServeAny, Release: saved.Release, Stream: saved.Stream}
+	if k.F.Stream == 0 {
+		k.F.Stream = 4
+	}
 	if k.F.Deliver == 0 {
 		k.F.Deliver = 4
 	}
@@ -336,7 +351,7 @@ func (k *K) Settle(maxVirtual time.Duration, maxSteps int, idle func() bool) boo
 		k.W.mu.Lock()
 		np := len(k.W.parks)
 		k.W.mu.Unlock()
-		if en == 0 && np == 0 {
+		if en == 0 && np == 0 && len(k.activeStreams()) == 0 {
 			if k.opsInFlight() == 0 && (idle == nil || idle()) {
 				quiet++
 				if quiet >= 4 {
